@@ -333,6 +333,7 @@ func init() {
 		Real:        []string{"smtp.Client (Mail, Rcpt, Data, LMTPData, dataCloser.Close, Noop, Quit)", "net/textproto DotWriter/Reader", "smtp.Server.Serve/handleConn", "smtp.Conn handlers", "dataReader", "lineLimitReader"},
 		Stub:        []string{"net.Listener (SimListener)", "net.Conn (SimConn, re-segmenting)", "Backend/Session (SimBackend)", "clock (synctest)"},
 		Assumptions: []string{"an empty body may arrive as \"\" or as a single CRLF", "bodies contain CR only as part of CRLF, as the property states"},
+		Required:    []string{"bare_LF", "line_starting_with_dot", "embedded_end_of_data_lookalike", "no_final_newline", "producer_pauses_longer_than_CommandTimeout", "via_Client.SendMail", "rejected_then_close_twice"},
 		QuickRuns:   150000, ThoroughRuns: 3000000,
 	})
 }
